@@ -21,6 +21,7 @@ import (
 	"fmt"
 	"sort"
 	"strings"
+	"sync"
 	"time"
 
 	"verifmc/node"
@@ -46,6 +47,7 @@ type srvWorld struct {
 	stop    chan struct{} // closed when the CPU budget is used up or the watchdog gave up
 	m       *meter
 	sent    int
+	mu      sync.Mutex
 	start   time.Duration
 }
 
@@ -74,6 +76,8 @@ func newSrvWorld(m *meter) *srvWorld {
 	return s
 }
 
+func (s *srvWorld) addSent(n int) { s.mu.Lock(); s.sent += n; s.mu.Unlock() }
+
 func (s *srvWorld) startLoop() {
 	spawn("c15:Server.run", func() { p2p.VerifServerLoop(s.srv) }, s.loopEnd)
 }
@@ -97,7 +101,7 @@ func (s *srvWorld) dial(id *node.Key) *remote {
 	spawn("c15:HandleConn", func() { s.srv.HandleConn(d, nil) }, end)
 	req := requestFor(id)
 	d.send(req)
-	s.sent += len(req)
+	s.addSent(len(req))
 	body, ok := r.nextPacket()
 	select {
 	case <-end:
@@ -136,11 +140,15 @@ func (s *srvWorld) witness(n int) bool {
 	return ok
 }
 
-// finish stops the loops; with stuck loops the instance is abandoned.
+// finish stops the loops; with stuck loops the instance is abandoned. Nothing here takes the write
+// lock of the event bus (Server.Stop and ProtocolManager.Stop do, and can wait for ever for it
+// while a closing peer is delivering its delete event: a shutdown problem, not a network input).
 func (s *srvWorld) finish(stuck bool) {
 	if stuck {
 		return
 	}
+	// the server loop ends first (an event it is delivering to the manager right now is still taken
+	// there; its channels keep a reader), then it leaves the bus, then the manager stops
 	p2p.VerifServerQuit(s.srv)
 	select {
 	case <-s.loopEnd:
@@ -148,7 +156,11 @@ func (s *srvWorld) finish(stuck bool) {
 		return
 	}
 	done := make(chan struct{})
-	go func() { s.pm.Stop(); close(done) }()
+	go func() {
+		p2p.VerifServerUnsub(s.srv)
+		s.pm.Stop()
+		close(done)
+	}()
 	select {
 	case <-done:
 	case <-s.stop:
@@ -266,6 +278,38 @@ func srvFamilies(w *world) []*Family {
 			}
 			return "done", !s.witness(0)
 		}},
+		{name: "served-peer-then-three-more-of-its-id-together", tries: maxTries, run: func(s *srvWorld) (string, bool) {
+			// the first connection is registered with the protocol manager and alive; the delete events of
+			// the refused ones make the manager close it (UnRegister looks the node id up), which sends one
+			// more delete event while others are queued
+			s.startLoop()
+			r1 := s.dial(A)
+			if r1 == nil || !r1.greeted() {
+				return "not-greeted", true
+			}
+			r1.d.send(frame(r1.key, 0x02, w.samples()[0].payload))
+			r1.d.send(frame(r1.key, 0x04, enc(&network.GetLatestStatus{})))
+			for {
+				code, _, ok := r1.nextMsg()
+				if !ok {
+					return "first-not-served", true
+				}
+				if code == 0x03 {
+					break
+				}
+			}
+			// three more at once, from three remote goroutines
+			res := make(chan *remote, 3)
+			for i := 0; i < 3; i++ {
+				go func() { res <- s.dial(A) }()
+			}
+			for i := 0; i < 3; i++ {
+				if r := <-res; r == nil {
+					return "no-handshake", true
+				}
+			}
+			return "done", !s.witness(0)
+		}},
 		{name: "same-id-three-times/one-after-the-other", run: func(s *srvWorld) (string, bool) {
 			s.startLoop()
 			for i := 0; i < 3; i++ {
@@ -333,11 +377,10 @@ func srvFamilies(w *world) []*Family {
 			// forgotten the connection, and the same identity is welcome again
 			cls := ""
 			for _, e := range []error{errBrokenPipe, errTimeout} {
-				s2 := s
 				if cls != "" {
 					s.finish(false)
-					s2 = newSrvWorld(s.m)
-					*s = *s2
+					s2 := newSrvWorld(s.m)
+					s.srv, s.pm, s.loopEnd, s.stop, s.start = s2.srv, s2.pm, s2.loopEnd, s2.stop, s2.start
 				}
 				s.startLoop()
 				r := s.dial(A)
